@@ -71,7 +71,7 @@ fn do_dec(run: &mut Run, bytes: &[u8], expect: Option<&Spec>, tag: &str) {
     };
     let nontrivial = dec.as_ref().map(|d| d.xor_mapped_address.is_some() || d.xor_peer_address.is_some()
         || d.xor_relayed_address.is_some() || d.realm.is_some() || d.nonce.is_some() || d.data.is_some()
-        || d.error_code.is_some() || d.lifetime.is_some() || d.use_candidate).unwrap_or(false);
+        || d.error_code.is_some() || d.lifetime.is_some() || d.priority.is_some() || d.use_candidate).unwrap_or(false);
     run.case("dec", &input, &out, nontrivial);
     run.count(&format!("dec_{tag}_{}", if dec.is_some() { "ok" } else { "err" }));
     if let Some(s) = expect {
@@ -270,6 +270,7 @@ pub fn run(args: &Args) {
     turn::run_all(&mut run, &mut rng, thorough);
     // (7b) the agent's own check order and messages
     agent::run_all(&mut run, &mut rng, thorough);
+    turn::callsite_cases(&mut run, &mut rng, thorough);
     // (8) ICE server URIs (RFC 7064 / 7065)
     uri_cases(&mut run, &mut rng, thorough);
 
@@ -344,6 +345,11 @@ fn replay(case: &str) {
         }
     };
     let mut run = Run::new("c16", "/tmp/vh-c16-replay");
+    if agent::replay(&mut run, case) || turn::replay(&mut run, case) {
+        for f in &run.fails { println!("ORACLE-FAIL {} {}", f.signature, f.detail); }
+        if run.fails.is_empty() { println!("no oracle failure"); }
+        return;
+    }
     match stream.as_str() {
         "enc" => { let s = Spec::parse(&rest).expect("bad enc case"); do_enc(&mut run, &s);
                    println!("impl: {}", s.encode_rustrtc().map(|b| hex(&b)).unwrap_or_else(|e| format!("error {e}")));
